@@ -12,6 +12,8 @@
     sel (all|distinct) F W g<k> E×k a<k> AGG×k [hv E] P o<k> ORD×k lim(<n>|-) off(<n>|-)
         F   := t<k> | j (inner|left|right|full|cross) F F (- | on E)
              | d F W p<k> E×k                   derived table (SELECT E×k FROM F [WHERE …]) AS r; its columns are c0 … c<k-1>
+             | cte F W p<k> E×k | ctes<j> F W p<k> E×k     the same, written WITH w AS (SELECT …) … FROM w AS r; ctes<j>: under the
+                                                name of table t<j> (which the statement does not read)
         W   := - | w E
         AGG := cnt* | cnt E | sum E | avg E | min E | max E | cntd E | sumd E | avgd E | mind E | maxd E   (…d = DISTINCT)
         hv E: HAVING (optional word)
@@ -340,7 +342,7 @@ def pFrom : Nat → P From
         | some k => (pFrom fuel ws).bind fun (l, r) => (pFrom fuel r).bind fun (rr, r) =>
             (pOn (fuel + 1) r).map fun (on, r) => (.join k l rr on, r)
       | [] => none
-    else if w == "d" then
+    else if w == "d" || w == "cte" || (numAfter "ctes" w).isSome then   -- a CTE is its derived table
       (pFrom fuel ws).bind fun (f, r) => (pWhere (fuel + 1) r).bind fun (wh, r) =>
         match r with
         | p :: r => (numAfter "p" p).bind fun np => (pExprs (fuel + 1) np r).map fun (es, r) => (.derived f wh es, r)
